@@ -2,9 +2,11 @@ package main
 
 import (
 	"fmt"
+	"go/constant"
 	"go/token"
 	"go/types"
 	"os"
+	"sort"
 	"strings"
 
 	"golang.org/x/tools/go/ssa"
@@ -504,7 +506,7 @@ func c05ParDir(rc *RuleCtx) {
 }
 
 func init() {
-	register(&Rule{ID: "C01.rootkey", Floor: 30, Also: []string{"C14"},
+	register(&Rule{ID: "C01.rootkey", Floor: 30, Also: []string{"C14", "C05"},
 		Text: "OrefaFS registers the root directory of a volume under the volume name (the absolute path without its trailing separator), which Abs never returns: every key of the path index is produced by absKey (Abs, then the root's separator removed), by SplitAbs / concatenation of such keys, or by ranging over the index - never by a raw Abs result, under which the root directory cannot be found (Stat, Chdir, ReadDir and WalkDir of \"/\" fail, Mkdir(\"/\") creates a second root)",
 		Run:  c01RootKey})
 }
@@ -619,8 +621,13 @@ func c01RootKey(rc *RuleCtx) {
 		for _, r := range returnsOf(ak) {
 			for _, rv := range resolve(r.Results[0]) {
 				if sl, ok := strip(rv).(*ssa.Slice); ok && sl.High != nil && sl.Low == nil {
+					// the prefix is cut at the volume-name length OF THE ABSOLUTE PATH being cut (not of the caller's
+					// string, which may name the root without its volume)
 					if c, _ := resultOfCall(sl.High); c != nil && calleeFunc(c) != nil && calleeFunc(c).Name() == "VolumeNameLen" {
-						slices = true
+						args := callArgs(c)
+						if len(args) > 0 && sameValue(resolve1(args[len(args)-1]), resolve1(sl.X)) {
+							slices = true
+						}
 					}
 				}
 			}
@@ -848,5 +855,425 @@ func c17VolRoot(rc *RuleCtx) {
 				rc.good(cons, u.Pos(), "map key, comparison or a call that accepts a root")
 			}
 		})
+	}
+}
+
+// ---- rules added after the third round of independent changes ----
+
+func init() {
+	register(&Rule{ID: "C17.seplit", Floor: 5, Also: []string{"C05"},
+		Text: "MemFS and OrefaFS build and compare paths with the separator of the emulated OS (PathSeparator()): no string concatenation or prefix/suffix operation of these packages has a separator literal (\"/\", \"\\\\\") as operand - with a literal the code is right for one OS type only (a renamed directory keeps its descendants under the old key on the other)",
+		Run:  c17SepLit})
+	register(&Rule{ID: "C04.resolved", Floor: 2, Also: []string{"C05"},
+		Text: "decisions of MemFS that compare two paths (same entry? one below the other?) compare the paths the walk resolved (PathIterator.Path() of the walk results), never the absolute form of the caller's strings: two lexically different names can reach the same entry through a symbolic link to a directory",
+		Run:  c04Resolved})
+	register(&Rule{ID: "C06.recheck", Floor: 3, Also: []string{"C01"},
+		Text: "where a creating call of MemFS finds, under the directory lock, that the name it is about to create exists after all, it answers 'file exists' (the answer of the sequential order in which the other call came first): the error of that branch is the exists-class entry of the error table (or its Windows counterpart), never the stale status of the unlocked walk",
+		Run:  c06Recheck})
+	register(&Rule{ID: "C11.holders", Floor: 6,
+		Text: "the per-view state holders embedded in MemFS (current directory, current user, umask) keep their state in their own fields: their methods neither store to a package-level variable nor read one that some function writes, so a setter called on one view cannot reach another view or the parent",
+		Run:  c11Holders})
+	register(&Rule{ID: "C16.pool", Floor: 1,
+		Text: "a buffer taken from the copy pool is owned by the function that took it until it puts it back: no function that (directly or by defer) returns a buffer to a sync.Pool also returns that buffer, or anything derived from it, to its caller - the copy would run on a buffer another copy may be using",
+		Run:  c16Pool})
+}
+
+func isSepConst(v ssa.Value) bool {
+	c, ok := strip(v).(*ssa.Const)
+	if !ok || c.Value == nil {
+		return false
+	}
+	switch c.Value.Kind() {
+	case constant.String:
+		s := constant.StringVal(c.Value)
+		return s == "/" || s == "\\"
+	case constant.Int:
+		if b, ok := c.Type().Underlying().(*types.Basic); ok && (b.Kind() == types.Uint8 || b.Kind() == types.Int32 || b.Kind() == types.UntypedRune) {
+			k, _ := constant.Int64Val(c.Value)
+			return k == '/' || k == '\\'
+		}
+	}
+	return false
+}
+
+func isSepCall(v ssa.Value) bool {
+	v = strip(v)
+	if c, _ := resultOfCall(v); c != nil {
+		if fn := calleeFunc(c); fn != nil && fn.Name() == "PathSeparator" {
+			return true
+		}
+	}
+	return false
+}
+
+func c17SepLit(rc *RuleCtx) {
+	for _, pk := range []string{"memfs", "orefafs"} {
+		for _, f := range rc.C.srcFuncs(pk) {
+			n := 0
+			report := func(in ssa.Instruction, v ssa.Value, what string) {
+				lit, call := isSepConst(v), isSepCall(v)
+				if !lit && !call {
+					return
+				}
+				n++
+				cons := fmt.Sprintf("%s separator#%d in %s", funcName(f), n, what)
+				if lit {
+					rc.bad(cons, in.Pos(), "a separator literal is used where the separator of the emulated OS type is needed: on a file system of the other type the operation silently works on the wrong strings")
+				} else {
+					rc.good(cons, in.Pos(), "PathSeparator() of the file system")
+				}
+			}
+			eachInstr(f, func(in ssa.Instruction) {
+				switch x := in.(type) {
+				case *ssa.BinOp:
+					if x.Op == token.ADD && isStringType(x.Type()) {
+						report(x, x.X, "concatenation")
+						report(x, x.Y, "concatenation")
+					}
+				case *ssa.Call:
+					if fn := calleeFunc(x); fn != nil && fn.Pkg() != nil && fn.Pkg().Path() == "strings" {
+						for _, a := range x.Call.Args {
+							report(x, a, "strings."+fn.Name())
+						}
+					}
+				}
+			})
+		}
+	}
+}
+
+// fromIteratorPath: the string derives from PathIterator.Path()/Left()/LeftPart() (possibly concatenated with the separator).
+func fromIteratorPath(v ssa.Value, depth int) bool {
+	if depth > 6 {
+		return false
+	}
+	v = strip(v)
+	switch x := v.(type) {
+	case *ssa.Call:
+		if fn := calleeFunc(x); fn != nil {
+			if rn := recvNamed(fn); rn != nil && rn.Obj().Name() == "PathIterator" {
+				return true
+			}
+		}
+	case *ssa.BinOp:
+		if x.Op == token.ADD {
+			l, r := fromIteratorPath(x.X, depth+1), fromIteratorPath(x.Y, depth+1)
+			return (l || isSepCall(x.X) || isSepConst(x.X)) && (r || isSepCall(x.Y) || isSepConst(x.Y)) && (l || r)
+		}
+	case *ssa.Phi:
+		for _, e := range x.Edges {
+			if !fromIteratorPath(e, depth+1) {
+				return false
+			}
+		}
+		return len(x.Edges) > 0
+	}
+	for _, rv := range resolve(v) {
+		if rv != v && fromIteratorPath(rv, depth+1) {
+			return true
+		}
+	}
+	return false
+}
+
+func c04Resolved(rc *RuleCtx) {
+	for _, f := range rc.C.srcFuncs("memfs") {
+		walks := 0
+		eachCall(f, func(ci ssa.CallInstruction) {
+			if fn := calleeFunc(ci); fn != nil && fn.Name() == "searchNode" {
+				walks++
+			}
+		})
+		if walks < 2 || !isEntryPoint(f) {
+			continue
+		}
+		n := 0
+		check := func(in ssa.Instruction, a, b ssa.Value, what string) {
+			if !isStringType(a.Type()) || !isStringType(b.Type()) {
+				return
+			}
+			if _, isC := strip(a).(*ssa.Const); isC {
+				return
+			}
+			if _, isC := strip(b).(*ssa.Const); isC {
+				return
+			}
+			n++
+			cons := fmt.Sprintf("%s path comparison#%d (%s)", funcName(f), n, what)
+			if fromIteratorPath(a, 0) && fromIteratorPath(b, 0) {
+				rc.good(cons, in.Pos(), "both operands are paths resolved by the walk")
+			} else {
+				rc.bad(cons, in.Pos(), "two paths are compared of which at least one is not the path resolved by the walk ("+prettyVal(a, 0)+" / "+prettyVal(b, 0)+"): names that reach the same entry through a symbolic link to a directory are taken for different entries (Rename then releases the file it is moving)")
+			}
+		}
+		eachInstr(f, func(in ssa.Instruction) {
+			switch x := in.(type) {
+			case *ssa.BinOp:
+				if x.Op == token.EQL || x.Op == token.NEQ {
+					check(x, x.X, x.Y, x.Op.String())
+				}
+			case *ssa.Call:
+				if fn := calleeFunc(x); fn != nil && fn.Pkg() != nil && fn.Pkg().Path() == "strings" && (fn.Name() == "HasPrefix" || fn.Name() == "HasSuffix") && len(x.Call.Args) == 2 {
+					check(x, x.Call.Args[0], x.Call.Args[1], "strings."+fn.Name())
+				}
+			}
+		})
+	}
+}
+
+func c06Recheck(rc *RuleCtx) {
+	existsClass := map[string]bool{"avfs.ErrFileExists": true, "avfs.ErrWinAlreadyExists": true, "avfs.ErrWinFileExists": true, "avfs.ErrWinAccessDenied": true}
+	a := lockAnalysisFor(rc.C)
+	for _, f := range rc.C.srcFuncs("memfs") {
+		if !isEntryPoint(f) {
+			continue
+		}
+		creates := false
+		eachCall(f, func(ci ssa.CallInstruction) {
+			if fn := calleeFunc(ci); fn != nil {
+				switch fn.Name() {
+				case "createDir", "createFile", "createSymlink", "addChild":
+					creates = true
+				}
+			}
+		})
+		if !creates || f.Name() == "MkdirAll" {
+			continue // MkdirAll: "if name is already a directory, MkdirAll does nothing and returns nil"
+		}
+		n := 0
+		eachInstr(f, func(in ssa.Instruction) {
+			iff, ok := in.(*ssa.If)
+			if !ok {
+				return
+			}
+			// condition: children[part] != nil (or == nil) on a lookup made with a lock of the directory held
+			c, truth := normCond(iff.Cond, true)
+			bo, ok := c.(*ssa.BinOp)
+			if !ok || (bo.Op != token.NEQ && bo.Op != token.EQL) {
+				return
+			}
+			var lk *ssa.Lookup
+			for _, pair := range [][2]ssa.Value{{bo.X, bo.Y}, {bo.Y, bo.X}} {
+				if isNilConst(pair[1]) {
+					if l, ok := stripIface(resolve1(pair[0])).(*ssa.Lookup); ok {
+						lk = l
+					}
+					if l, ok := pair[0].(*ssa.Lookup); ok {
+						lk = l
+					}
+				}
+			}
+			if lk == nil {
+				return
+			}
+			ld, ok := stripCT(lk.X).(*ssa.UnOp)
+			if !ok || ld.Op != token.MUL {
+				return
+			}
+			fad, ok := ld.X.(*ssa.FieldAddr)
+			if !ok || fieldName(fad.X.Type(), fad.Field) != "children" {
+				return
+			}
+			st := a.stateBefore(lk)
+			if st == nil || len(st.must) == 0 {
+				return // the unlocked walk's lookups are not re-checks
+			}
+			existsSucc := 0
+			if (bo.Op == token.NEQ) != truth {
+				existsSucc = 1
+			}
+			blk := iff.Block().Succs[existsSucc]
+			// the exists branch ends in returns (possibly after choosing the error of the emulated OS)
+			if len(blk.Preds) != 1 {
+				return
+			}
+			ei := errResultIndex(f.Signature)
+			var ret *ssa.Return
+			var leaves []string
+			seenLeaf := map[string]bool{}
+			for _, r := range returnsOf(f) {
+				if !blk.Dominates(r.Block()) || ei < 0 || ei >= len(r.Results) {
+					continue
+				}
+				ret = r
+				for _, l := range errLeaves(rc.C, r.Results[ei], 0) {
+					if !seenLeaf[l.name] {
+						seenLeaf[l.name] = true
+						leaves = append(leaves, l.name)
+					}
+				}
+			}
+			if ret == nil {
+				return
+			}
+			n++
+			cons := fmt.Sprintf("%s re-check#%d under the directory lock", funcName(f), n)
+			sort.Strings(leaves)
+			bad := ""
+			for _, l := range leaves {
+				if !existsClass[l] {
+					bad = l
+				}
+			}
+			switch {
+			case len(leaves) == 0:
+				rc.bad(cons, ret.Pos(), "the error returned when the name turns out to exist cannot be classified")
+			case bad != "":
+				rc.bad(cons, ret.Pos(), "the name exists (another call created it first) but the call answers with "+bad+", not with 'file exists': no sequential order of the two calls gives that answer")
+			default:
+				rc.good(cons, ret.Pos(), "answers 'file exists' ("+strings.Join(leaves, ", ")+")")
+			}
+		})
+	}
+}
+
+func c11Holders(rc *RuleCtx) {
+	holders := map[string]bool{"CurDirFn": true, "CurUserFn": true, "UMaskFn": true, "IdmFn": true, "FeaturesFn": true, "OSTypeFn": true}
+	seen := 0
+	// package-level variables that some function (other than the package initialiser) writes, directly or atomically
+	mutable := map[*ssa.Global]bool{}
+	for _, g := range rc.C.srcFuncs("avfs") {
+		if g.Name() == "init" {
+			continue
+		}
+		eachInstr(g, func(in ssa.Instruction) {
+			switch x := in.(type) {
+			case *ssa.Store:
+				if gl, ok := x.Addr.(*ssa.Global); ok {
+					mutable[gl] = true
+				}
+			case ssa.CallInstruction:
+				if fn := calleeFunc(x); fn != nil && fn.Pkg() != nil && fn.Pkg().Path() == "sync/atomic" {
+					for _, a := range x.Common().Args {
+						if gl, ok := a.(*ssa.Global); ok {
+							mutable[gl] = true
+						}
+					}
+				}
+			}
+		})
+	}
+	for _, f := range rc.C.srcFuncs("avfs") {
+		if f.Signature.Recv() == nil {
+			continue
+		}
+		rn := namedOf(f.Signature.Recv().Type())
+		if rn == nil || !holders[rn.Obj().Name()] {
+			continue
+		}
+		seen++
+		cons := funcName(f) + " state in own fields"
+		bad := ""
+		eachInstr(f, func(in ssa.Instruction) {
+			for _, op := range in.Operands(nil) {
+				if op == nil || *op == nil {
+					continue
+				}
+				if g, ok := (*op).(*ssa.Global); ok && g.Pkg != nil && strings.HasPrefix(g.Pkg.Pkg.Path(), modPath) {
+					if _, isStore := in.(*ssa.Store); !mutable[g] && !(isStore && in.(*ssa.Store).Addr == ssa.Value(g)) {
+						continue // a package-level value nobody writes (a default, an error value) is a constant in practice
+					}
+					bad = "refers to the package-level variable " + g.Name() + ": the state is shared by every file system (and every view) of the process instead of belonging to the receiver"
+				}
+			}
+		})
+		if bad != "" {
+			rc.bad(cons, f.Pos(), bad)
+		} else {
+			rc.good(cons, f.Pos(), "no package-level variable is read or written")
+		}
+	}
+	if seen == 0 {
+		rc.anchor("methods of avfs.CurDirFn / CurUserFn / UMaskFn")
+	}
+}
+
+func c16Pool(rc *RuleCtx) {
+	n := 0
+	for _, f := range rc.C.srcFuncs("avfs") {
+		var puts []ssa.CallInstruction
+		eachCall(f, func(ci ssa.CallInstruction) {
+			fn := calleeFunc(ci)
+			if fn == nil || fn.Name() != "Put" {
+				return
+			}
+			if rn := recvNamed(fn); rn == nil || rn.Obj().Pkg() == nil || rn.Obj().Pkg().Path() != "sync" || rn.Obj().Name() != "Pool" {
+				return
+			}
+			puts = append(puts, ci)
+		})
+		for _, p := range puts {
+			n++
+			cons := fmt.Sprintf("%s pool buffer#%d", funcName(f), n)
+			args := callArgs(p)
+			if len(args) == 0 {
+				continue
+			}
+			buf := strip(args[len(args)-1])
+			bad := false
+			derives := func(v ssa.Value) bool {
+				seen := map[ssa.Value]bool{}
+				var walk func(v ssa.Value, d int) bool
+				walk = func(v ssa.Value, d int) bool {
+					if v == nil || d > 8 || seen[v] {
+						return false
+					}
+					seen[v] = true
+					if strip(v) == buf {
+						return true
+					}
+					switch x := v.(type) {
+					case *ssa.UnOp:
+						if _, isCell := x.X.(*ssa.Alloc); !isCell {
+							return walk(x.X, d+1)
+						}
+					case *ssa.Slice:
+						return walk(x.X, d+1)
+					case *ssa.MakeInterface:
+						return walk(x.X, d+1)
+					case *ssa.ChangeType:
+						return walk(x.X, d+1)
+					case *ssa.Convert:
+						return walk(x.X, d+1)
+					case *ssa.TypeAssert:
+						return walk(x.X, d+1)
+					case *ssa.Extract:
+						return walk(x.Tuple, d+1)
+					case *ssa.Phi:
+						for _, e := range x.Edges {
+							if walk(e, d+1) {
+								return true
+							}
+						}
+					}
+					for _, rv := range resolve(v) {
+						if rv != v && walk(rv, d+1) {
+							return true
+						}
+					}
+					return false
+				}
+				return walk(v, 0)
+			}
+			// the value put back may itself be derived from the Get result: compare on the Get result when visible
+			if ta, ok := buf.(*ssa.TypeAssert); ok {
+				buf = strip(ta.X)
+			}
+			for _, r := range returnsOf(f) {
+				for _, res := range r.Results {
+					if derives(res) {
+						bad = true
+					}
+				}
+			}
+			if bad {
+				rc.bad(cons, p.Pos(), "the function gives the buffer back to the pool (on return) and also hands it to its caller: the caller works on a buffer that the next Get can hand to a concurrent copy, whose bytes then end up in this destination")
+			} else {
+				rc.good(cons, p.Pos(), "the buffer does not outlive the function that returns it to the pool")
+			}
+		}
+	}
+	if n == 0 {
+		rc.anchor("sync.Pool.Put in package avfs (copy buffer pool)")
 	}
 }
